@@ -64,8 +64,17 @@ def scenarios(thorough):
                 f.pop(k, None)
             else:
                 f[k] = {"text": v}
+        a = list(args or CMDS[cmd])
         out.append({"id": "%s/%s/%s" % (kind, cmd, tag), "fam": "cli", "sig": "%s:%s" % (kind, cmd), "files": f,
-                    "args": args or CMDS[cmd], "reps": 1, "deadline_s": 10})
+                    "args": a, "reps": 1, "deadline_s": 10})
+        # the same scenario writing to a file instead of stdout (the output is opened, and closed, by other code)
+        if "-o" in a:
+            i = a.index("-o")
+            a2 = a[:i] + ["-o", "@outdir"] + a[i + 2:]
+        else:
+            a2 = a + ["-o", "@out.txt"]
+        out.append({"id": "%s/%s/%s+outfile" % (kind, cmd, tag), "fam": "cli", "sig": "%s:%s" % (kind, cmd), "files": f,
+                    "args": a2, "reps": 1, "deadline_s": 10})
 
     def texts(name):
         pre = "t" if name.startswith("t.") else "q"
